@@ -704,8 +704,11 @@ fn eval_step<'a>(c: &mut LongChain<'a>, r: &mut Ref, before: Obs, op: &Op, paylo
             fail = Some(("panic-in-range", format!("`{}` panicked ({p}) although its argument is in range of {}", op.text(), ref_before.text())));
             (true, 1)
         }
-        (Ok(_), Exp::Rejected) => {
-            if after != before {
+        (Ok(ret), Exp::Rejected) => {
+            if op.wanted().is_some() {
+                // a call that is to hand out bytes the chain does not hold has to panic
+                fail = Some(("out-of-range-accepted", format!("`{}` asks for more bytes than {} holds, did not panic and returned {}", op.text(), ref_before.text(), ret.text())));
+            } else if after != before {
                 let (cat, d) = after
                     .consistent()
                     .unwrap_or(("out-of-range-changed", format!("value changed from {} to {}", before.text(), after.text())));
@@ -1102,6 +1105,8 @@ struct Alphabet {
     /// payloads offered to push / insert at a given depth: (owned?, length)
     push: Vec<(bool, usize)>,
     insert: Vec<(bool, usize)>,
+    /// offer the consuming `Buf` methods as well (the `buf pass`)
+    buf: bool,
 }
 
 fn ops_for(r: &Ref, depth: usize, al: &Alphabet) -> Vec<Op> {
@@ -1125,8 +1130,17 @@ fn ops_for(r: &Ref, depth: usize, al: &Alphabet) -> Vec<Op> {
         v.push(Op::SplitOff(n));
         v.push(Op::Truncate(n));
         v.push(Op::Advance(n));
+        if al.buf {
+            v.push(Op::CopyToBytes(n));
+            v.push(Op::CopyToSlice(n));
+        }
     }
     v.push(Op::Clear);
+    if al.buf {
+        v.push(Op::GetU8);
+        v.push(Op::GetU16);
+        v.push(Op::GetU32);
+    }
     v
 }
 
@@ -1276,6 +1290,15 @@ fn rand_offset(r: &mut Rng, st: &Ref) -> usize {
     }
 }
 
+/// How much a consuming `Buf` call asks for: in range; a few bytes, up to a boundary, or anything.
+fn rand_take(r: &mut Rng, st: &Ref) -> usize {
+    let total = st.bytes.len();
+    match r.below(3) {
+        0 => (r.below(6) as usize).min(total),
+        _ => rand_offset(r, st),
+    }
+}
+
 fn past(r: &mut Rng, total: usize) -> usize {
     match r.below(4) {
         0 | 1 => total + 1,
@@ -1298,7 +1321,7 @@ fn gen_op(r: &mut Rng, st: &Ref, risky: bool) -> Op {
             Op::Insert(i, rand_seg(r, true))
         }
     } else {
-        match r.below(13) {
+        match r.below(20) {
             0 | 1 => Op::Pop,
             2 | 3 => {
                 if k == 0 || (risky && r.chance(1, 6)) {
@@ -1312,12 +1335,24 @@ fn gen_op(r: &mut Rng, st: &Ref, risky: bool) -> Op {
             // an over-long truncate is offered often: it must be a no-op (or a panic)
             8 | 9 => Op::Truncate(if r.chance(1, 5) { past(r, total) } else { rand_offset(r, st) }),
             10 | 11 => Op::Advance(if risky && r.chance(1, 6) { past(r, total) } else { rand_offset(r, st) }),
-            _ => {
+            12 => {
                 if r.chance(1, 8) {
                     Op::Clear
                 } else {
                     Op::Advance(rand_offset(r, st).min(3))
                 }
+            }
+            // the consuming `Buf` methods: mostly a header-sized or a boundary-sized request
+            13 | 14 => Op::CopyToBytes(if risky && r.chance(1, 6) { past(r, total) } else { rand_take(r, st) }),
+            15 | 16 => Op::CopyToSlice(if risky && r.chance(1, 6) { total + 1 + r.below(1000) as usize } else { rand_take(r, st) }),
+            w => {
+                let op = match w {
+                    17 => Op::GetU8,
+                    18 => Op::GetU16,
+                    _ => Op::GetU32,
+                };
+                // short of bytes the call panics (and ends the sequence): only in a risky position
+                if op.wanted().expect("size") <= total || risky { op } else { Op::CopyToBytes(total.min(1)) }
             }
         }
     }
@@ -1380,41 +1415,90 @@ fn ord_text(o: Option<std::cmp::Ordering>) -> &'static str {
     }
 }
 
-const SEG_OPS: [&str; 4] = ["split_to", "split_off", "truncate", "advance"];
+const SEG_OPS: [&str; 9] = ["split_to", "split_off", "truncate", "advance", "copy_to_bytes", "copy_to_slice", "get_u8", "get_u16", "get_u32"];
+
+/// An out-of-range argument may be ignored (value unchanged) instead of answered with a panic: only
+/// by the operations that hand nothing out (`Bytes::truncate` does so); a call that is to return
+/// bytes the value does not hold has to panic.
+fn seg_op_ignorable(op: &str) -> bool {
+    matches!(op, "split_to" | "split_off" | "truncate" | "advance")
+}
+
+/// The number of bytes (or the offset) the operation needs the value to hold.
+fn seg_need(op: &str, n: usize) -> usize {
+    match op {
+        "get_u8" => 1,
+        "get_u16" => 2,
+        "get_u32" => 4,
+        _ => n,
+    }
+}
+
+/// The operations that take no argument (asked with `n` = 0 only).
+fn seg_op_nullary(op: &str) -> bool {
+    op.starts_with("get_")
+}
+
+/// What a `CowBytes` operation returns.
+enum SegRet<'a> {
+    Nothing,
+    Seg(CowBytes<'a>),
+    Copied(Vec<u8>),
+    Num(u64),
+}
 
 /// One `CowBytes` operation: (response line, value afterwards (None after a panic), oracle failure).
 fn seg_step<'a>(c: &CowBytes<'a>, op: &str, n: usize) -> (String, Option<CowBytes<'a>>, Option<(&'static str, String)>) {
     let v: Vec<u8> = c.as_ref().to_vec();
     let mut d = c.clone();
     let got = catch(|| match op {
-        "split_to" => Some(d.split_to(n)),
-        "split_off" => Some(d.split_off(n)),
+        "split_to" => SegRet::Seg(d.split_to(n)),
+        "split_off" => SegRet::Seg(d.split_off(n)),
         "truncate" => {
             d.truncate(n);
-            None
+            SegRet::Nothing
         }
         "advance" => {
             d.advance(n);
-            None
+            SegRet::Nothing
         }
+        "copy_to_bytes" => SegRet::Copied(d.copy_to_bytes(n).to_vec()),
+        "copy_to_slice" => {
+            let mut dst = vec![0xA5u8; n];
+            d.copy_to_slice(&mut dst);
+            SegRet::Copied(dst)
+        }
+        "get_u8" => SegRet::Num(u64::from(d.get_u8())),
+        "get_u16" => SegRet::Num(u64::from(d.get_u16())),
+        "get_u32" => SegRet::Num(u64::from(d.get_u32())),
         _ => unreachable!(),
     });
     let after = seg_of(&d);
-    let in_range = n <= v.len();
+    let need = seg_need(op, n);
+    let in_range = need <= v.len();
+    let be = |b: &[u8]| b.iter().fold(0u64, |a, x| a * 256 + u64::from(*x));
     // reference: the plain vector
-    let (exp_self, exp_ret): (Vec<u8>, Option<Vec<u8>>) = if in_range {
+    let (exp_self, exp_ret, exp_num): (Vec<u8>, Option<Vec<u8>>, Option<u64>) = if in_range {
         match op {
-            "split_to" => (v[n..].to_vec(), Some(v[..n].to_vec())),
-            "split_off" => (v[..n].to_vec(), Some(v[n..].to_vec())),
-            "truncate" => (v[..n].to_vec(), None),
-            _ => (v[n..].to_vec(), None),
+            "split_to" | "copy_to_bytes" | "copy_to_slice" => (v[n..].to_vec(), Some(v[..n].to_vec()), None),
+            "split_off" => (v[..n].to_vec(), Some(v[n..].to_vec()), None),
+            "truncate" => (v[..n].to_vec(), None, None),
+            "get_u8" | "get_u16" | "get_u32" => (v[need..].to_vec(), None, Some(be(&v[..need]))),
+            _ => (v[n..].to_vec(), None, None),
         }
     } else {
-        (v.clone(), None)
+        (v.clone(), None, None)
     };
     let what = format!("{} {op} {n}", seg_text(c.is_static(), &v));
     let mut fail = None;
-    let accessors_ok = |x: &CowBytes<'_>| x.len() == x.as_ref().len() && x.remaining() == x.as_ref().len() && x.chunk() == x.as_ref() && x.is_empty() == x.as_ref().is_empty();
+    let accessors_ok = |x: &CowBytes<'_>| {
+        x.len() == x.as_ref().len()
+            && x.remaining() == x.as_ref().len()
+            && x.chunk() == x.as_ref()
+            && x.is_empty() == x.as_ref().is_empty()
+            && x.has_remaining() != x.as_ref().is_empty()
+            && IOV_SLOTS.iter().all(|k| iov_ok(&vectored(x, *k), *k, x.as_ref()).is_ok())
+    };
     let line = match &got {
         Err(_) => {
             if in_range {
@@ -1425,17 +1509,28 @@ fn seg_step<'a>(c: &CowBytes<'a>, op: &str, n: usize) -> (String, Option<CowByte
             format!("panic {}", seg_text(after.0, &after.1))
         }
         Ok(ret) => {
-            let ret_s = ret.as_ref().map(seg_of);
+            let (ret_bytes, ret_num, ret_text): (Option<Vec<u8>>, Option<u64>, String) = match ret {
+                SegRet::Nothing => (None, None, "-".to_string()),
+                SegRet::Seg(r) => {
+                    let x = seg_of(r);
+                    let t = seg_text(x.0, &x.1);
+                    (Some(x.1), None, t)
+                }
+                SegRet::Copied(b) => (Some(b.clone()), None, format!("b:{}", hexd(b))),
+                SegRet::Num(k) => (None, Some(*k), format!("n:{k}")),
+            };
             if after.1 != exp_self || !accessors_ok(&d) {
                 fail = Some(("seg-contents", format!("`{what}` left {} (len {}), the byte vector gives {}", hexd(&after.1), d.len(), hexd(&exp_self))));
-            } else if in_range && ret_s.as_ref().map(|x| x.1.clone()) != exp_ret {
-                fail = Some(("seg-returned", format!("`{what}` returned {:?}, the byte vector gives {:?}", ret_s.as_ref().map(|x| hexd(&x.1)), exp_ret.as_ref().map(|x| hexd(x)))));
-            } else if let Some(r) = ret {
+            } else if !in_range && !seg_op_ignorable(op) {
+                fail = Some(("seg-out-of-range-accepted", format!("`{what}` asks for more bytes than the value holds and did not panic")));
+            } else if in_range && (ret_bytes != exp_ret || ret_num != exp_num) {
+                fail = Some(("seg-returned", format!("`{what}` returned {ret_text}, the byte vector gives {:?} / {:?}", exp_ret.as_ref().map(|x| hexd(x)), exp_num)));
+            } else if let SegRet::Seg(r) = ret {
                 if !accessors_ok(r) || r.is_static() != c.is_static() {
                     fail = Some(("seg-returned", format!("`{what}` returned an inconsistent value")));
                 }
             }
-            format!("ok {} {}", seg_text(after.0, &after.1), ret_s.map_or("-".to_string(), |x| seg_text(x.0, &x.1)))
+            format!("ok {} {}", seg_text(after.0, &after.1), ret_text)
         }
     };
     (line, got.is_ok().then_some(d), fail)
@@ -1460,18 +1555,19 @@ impl CowCtx {
 fn seg_dfs(c: &CowBytes<'_>, depth: usize, path: &mut Vec<String>, origin: &str, cx: &mut CowCtx, rep: &mut Report) {
     let v = c.as_ref().to_vec();
     for op in SEG_OPS {
-        for n in 0..=v.len() + 1 {
+        for n in 0..=(if seg_op_nullary(op) { 0 } else { v.len() + 1 }) {
             let (line, next, fail) = seg_step(c, op, n);
+            let need = seg_need(op, n);
             let req = format!("seg {} {op} {n}", seg_text(c.is_static(), &v));
             path.push(format!("{op} {n}"));
-            rep.case((n <= v.len() && !v.is_empty()).then(|| pvh::fnv(format!("{origin} {}", path.join(" ; ")).as_bytes())));
-            rep.count(&format!("cow/{op}/{}", if line.starts_with("panic") { "panic" } else if n > v.len() { "unchanged" } else { "ok" }));
+            rep.case((need <= v.len() && !v.is_empty()).then(|| pvh::fnv(format!("{origin} {}", path.join(" ; ")).as_bytes())));
+            rep.count(&format!("cow/{op}/{}", if line.starts_with("panic") { "panic" } else if need > v.len() { "unchanged" } else { "ok" }));
             // borrowed and owned must give the same bytes (an out-of-range argument may panic in one
             // and be ignored in the other: both are allowed)
             let twin = mk_cow(!c.is_static(), &v);
             let (tline, _, _) = seg_step(&twin, op, n);
             let strip = |l: &str| l.replace("T:", "").replace("S:", "");
-            if n <= v.len() && strip(&line) != strip(&tline) {
+            if need <= v.len() && strip(&line) != strip(&tline) {
                 cx.fails.push((
                     format!("variants differ: {req}"),
                     "seg-variants",
@@ -1479,7 +1575,7 @@ fn seg_dfs(c: &CowBytes<'_>, depth: usize, path: &mut Vec<String>, origin: &str,
                     json!({"op": "seg", "seg": seg_text(c.is_static(), &v), "ops": path.clone()}),
                 ));
             }
-            if n > v.len() && strip(&line) != strip(&tline) {
+            if need > v.len() && strip(&line) != strip(&tline) {
                 rep.count(&format!("cow/{op}/out-of-range: one variant panics, the other ignores it"));
             }
             if let Some((cat, d)) = fail {
@@ -1550,7 +1646,16 @@ fn cow_part(rep: &mut Report, tier: Tier) -> Vec<(String, String)> {
                     json!({"op": "acc", "seg": seg_text(x.is_static(), a)}),
                 ));
             }
-            lines.push(format!("len={} empty={} rem={} chunk={} hash={}", x.len(), x.is_empty(), x.remaining(), hexd(x.chunk()), hex(&hash_stream(x))));
+            let iov = [vectored(x, IOV_SLOTS[0]), vectored(x, IOV_SLOTS[1]), vectored(x, IOV_SLOTS[2])];
+            if x.has_remaining() == a.is_empty() || iov.iter().zip(IOV_SLOTS).any(|(l, k)| iov_ok(l, k, a).is_err()) {
+                cx.fails.push((
+                    format!("accessor: {}", seg_text(x.is_static(), a)),
+                    "seg-accessor",
+                    format!("has_remaining() = {} / chunks_vectored = {} of {} do not describe its bytes", x.has_remaining(), iovs_text(&iov), seg_text(x.is_static(), a)),
+                    json!({"op": "acc", "seg": seg_text(x.is_static(), a)}),
+                ));
+            }
+            lines.push(format!("len={} empty={} rem={} more={} chunk={} iov={} hash={}", x.len(), x.is_empty(), x.remaining(), x.has_remaining(), hexd(x.chunk()), iovs_text(&iov), hex(&hash_stream(x))));
         }
         if lines[0] != lines[1] || lines[0] != lines[2] {
             cx.fails.push((
@@ -1813,7 +1918,7 @@ fn main() {
         std::process::exit(replay(p));
     }
     let rule = "operation sequences on LongChain (every sequence up to a depth bound from every chain of <= 3 segments of 1..3 bytes \
-in 4 borrowed/owned patterns, arguments at/one before/one past/inside every segment boundary; random sequences of <= 200 ops), and \
+in 4 borrowed/owned patterns, arguments at/one before/one past/inside every segment boundary; random sequences of <= 200 ops; the operations are LongChain's mutators and Buf::copy_to_bytes / copy_to_slice / get_u8 / get_u16 / get_u32), and \
 CowBytes operation sequences, accessor sets and comparison pairs; one case = one operation sequence (or one accessor set / pair); \
 non-trivial = at least one operation of the sequence is in range while the chain holds bytes before or after it; distinct by \
 initial chain + operation list";
@@ -1843,9 +1948,11 @@ initial chain + operation list";
     // exhaustive
     let alphabets = [
         // full: empty and non-empty payloads, borrowed and owned
-        Alphabet { push: vec![(false, 0), (true, 0), (false, 1), (true, 2)], insert: vec![(true, 0), (false, 2), (true, 1)] },
+        Alphabet { push: vec![(false, 0), (true, 0), (false, 1), (true, 2)], insert: vec![(true, 0), (false, 2), (true, 1)], buf: false },
         // reduced (deeper levels)
-        Alphabet { push: vec![(true, 0), (false, 2)], insert: vec![(false, 0), (true, 1)] },
+        Alphabet { push: vec![(true, 0), (false, 2)], insert: vec![(false, 0), (true, 1)], buf: false },
+        // buf pass: the consuming `Buf` methods next to every old operation, fewer payloads
+        Alphabet { push: vec![(false, 2), (true, 1)], insert: vec![(true, 2)], buf: true },
     ];
     let all = initial_chains(3, 3);
     let deep: Vec<Vec<usize>> = vec![vec![], vec![1], vec![3], vec![2, 1], vec![1, 3], vec![3, 2, 1], vec![1, 1, 1], vec![2, 3, 3]];
@@ -1864,6 +1971,13 @@ initial chain + operation list";
         (Tier::Quick, true) => (2, 2, 3, 2, 4),
         (Tier::Thorough, true) => (3, 3, 4, 2, 8),
     };
+    // buf pass: depth from every chain, depth from the `deep` chains (all four tag patterns)
+    let (b_all, b_deep) = match (args.tier, light) {
+        (Tier::Quick, false) => (2, 3),
+        (Tier::Thorough, false) => (3, 4),
+        (Tier::Quick, true) => (2, 2),
+        (Tier::Thorough, true) => (2, 3),
+    };
     if light {
         rep.notes.push(format!("light pass (debug assertions {}): LongChain::verify_invariants and overflow checks act as additional oracles", if cfg!(debug_assertions) { "ON" } else { "off" }));
     }
@@ -1877,6 +1991,7 @@ initial chain + operation list";
             if is_deep(c) && is_mixed(c) && d_reduced > d_deep {
                 jobs.push((c.clone(), d_reduced, 1));
             }
+            jobs.push((c.clone(), if is_deep(c) { b_deep } else { b_all }, 2));
         }
     }
     // biggest jobs first (better load balance); the order is fixed
@@ -1892,6 +2007,10 @@ initial chain + operation list";
         all.iter().filter(|c| is_deep(c) && is_mixed(c)).count(),
         acc.evals,
         t0.elapsed().as_secs_f64()
+    ));
+    rep.notes.push(format!(
+        "buf pass (part of the exhaustive part): from each of the same initial chains every sequence of length <= {b_all} (<= {b_deep} from the {} chains named above) over copy_to_bytes / copy_to_slice (at, one before, one past and inside every segment boundary), get_u8 / get_u16 / get_u32 and every old operation with a reduced payload alphabet; has_remaining and chunks_vectored (0, 1, 3 slots) are observed after every operation of every part",
+        all.iter().filter(|c| is_deep(c)).count()
     ));
     rep.notes.push(format!(
         "every step of the exhaustive part is checked against the byte vector; {} distinct (state, operation) steps occurred; sent to the model: all those met within the first {keep_depth} operations of a sequence and 1 in {sample} of the deeper ones (by fingerprint): {} lines{}",
